@@ -141,6 +141,11 @@ Theorem C13_encode_decode : forall ls, Forall (fun l => nolf l /\ (length l < ma
   feed [] (concat (List.map encode ls)) = (List.map FLine ls, []).
 Proof. exact decode_encode. Qed.
 
+(* bytes not terminated by LF are never executed: a read that leaves the buffer without LF hands no line to the command
+   layer - whatever the bytes say; they stay pending and go away with the connection (C06: close in mid-line) *)
+Theorem C13_unterminated_not_executed : forall pending seg l, nolf (pending ++ seg) -> ~ In (FLine l) (fst (feed pending seg)).
+Proof. exact unterminated_yields_no_line. Qed.
+
 End C13.
 
 Print Assumptions C13_tokens_wellformed.
@@ -161,3 +166,4 @@ Print Assumptions C13_segmentation_invariant.
 Print Assumptions C13_overlong_not_executed.
 Print Assumptions C13_received_lines_have_no_lf.
 Print Assumptions C13_encode_decode.
+Print Assumptions C13_unterminated_not_executed.
